@@ -37,7 +37,8 @@ ASSUMPTIONS = [
 
 TEXTS = ["a", "b1", "1", "a.b", "a/b", "a b", "[", "]", "(", ")", "'", '"',
          "\\", "^", "$", "%", "a[0]", "x(y)", "it's", 'say "hi"', "a\\b",
-         "50%", "^a$", ".", "/", " ", "a.b/c d", "/x", "/a.b", "./x"]
+         "50%", "^a$", ".", "/", " ", "a.b/c d", "/x", "/a.b", "./x",
+         '"hi"', "'q'", '""', "'tis so", 'a"', "x'y\"z"]
 SIMPLE = ["a", "b1", "1"]
 SEGS1 = []
 PATHS = []
@@ -58,7 +59,8 @@ def seg_vocab(tier):
     v.append(("trav",))
     terms = TEXTS if tier != "quick" else [
         "a", "1", "a.b", "a b", "]", "[", "'", '"', "\\", "a/b", "(", ")",
-        "^", "$", "%"]
+        "^", "$", "%", '"hi"', "'q'", '""', "'tis so", 'say "hi"', 'a"',
+        "x'y\"z", "a\\b"]
     for op in paths.OPS:
         for inv in (False, True):
             v.append(("search", ".", op, "a", inv))
@@ -211,7 +213,9 @@ def run_shard(shard):
 def roundtrip(st, segs):
     sig = paths.sig(segs)
     for sep in (".", "/"):
-        for style in ("bs", "q"):
+        styles = ("bs", "q", "qq1", "qq2") if any(
+            x[0] == "search" for x in segs) else ("bs", "q")
+        for style in styles:
             text = paths.render(segs, sep, style)
             if sep == "." and text.startswith("/"):
                 st.extra["dot_paths_starting_with_slash_excluded"] += 1
